@@ -4,7 +4,7 @@ from props.render_common import run_render
 
 
 def run(rep, ctx):
-    run_render(rep, ctx, 'c02', [('combined-text', rc.c02_failures)], n_quick=700, n_thorough=12000, small_caps=True)
+    run_render(rep, ctx, 'c02', [('combined-text', rc.c02_failures)], n_quick=700, n_thorough=12000, small_caps=True, big=True)
 
 
 def replay(rep, data):
